@@ -32,6 +32,8 @@ pub struct S;
 pub struct Seq {
     items: Vec<U>,
     variant: Option<u32>,
+    /// present the fields as right-nested pairs (tuple regions and tuple indices of arity >= 3)
+    nest: bool,
 }
 
 fn variant(idx: u32, mut payload: Vec<U>) -> U {
@@ -74,16 +76,20 @@ impl ser::Serializer for S {
     fn serialize_newtype_variant<T: Serialize + ?Sized>(self, _name: &'static str, idx: u32, _variant: &'static str, value: &T) -> Result<U, Error> {
         Ok(variant(idx, vec![value.serialize(S)?]))
     }
-    fn serialize_seq(self, len: Option<usize>) -> Result<Seq, Error> { Ok(Seq { items: Vec::with_capacity(len.unwrap_or(0)), variant: None }) }
-    fn serialize_tuple(self, len: usize) -> Result<Seq, Error> { Ok(Seq { items: Vec::with_capacity(len), variant: None }) }
-    fn serialize_tuple_struct(self, _name: &'static str, len: usize) -> Result<Seq, Error> { Ok(Seq { items: Vec::with_capacity(len), variant: None }) }
+    fn serialize_seq(self, len: Option<usize>) -> Result<Seq, Error> { Ok(Seq { items: Vec::with_capacity(len.unwrap_or(0)), variant: None, nest: false }) }
+    fn serialize_tuple(self, len: usize) -> Result<Seq, Error> { Ok(Seq { items: Vec::with_capacity(len), variant: None, nest: len > 2 }) }
+    fn serialize_tuple_struct(self, _name: &'static str, len: usize) -> Result<Seq, Error> { Ok(Seq { items: Vec::with_capacity(len), variant: None, nest: false }) }
     fn serialize_tuple_variant(self, _name: &'static str, idx: u32, _variant: &'static str, len: usize) -> Result<Seq, Error> {
-        Ok(Seq { items: Vec::with_capacity(len), variant: Some(idx) })
+        Ok(Seq { items: Vec::with_capacity(len), variant: Some(idx), nest: false })
     }
-    fn serialize_map(self, len: Option<usize>) -> Result<Seq, Error> { Ok(Seq { items: Vec::with_capacity(2 * len.unwrap_or(0)), variant: None }) }
-    fn serialize_struct(self, _name: &'static str, len: usize) -> Result<Seq, Error> { Ok(Seq { items: Vec::with_capacity(len), variant: None }) }
+    fn serialize_map(self, len: Option<usize>) -> Result<Seq, Error> { Ok(Seq { items: Vec::with_capacity(2 * len.unwrap_or(0)), variant: None, nest: false }) }
+    fn serialize_struct(self, name: &'static str, len: usize) -> Result<Seq, Error> {
+        // tuple regions of arity >= 3 are modelled as right-nested pairs (run.rs: flat_tuple_h)
+        let nest = len > 2 && name.starts_with("Tuple") && name.ends_with("Region");
+        Ok(Seq { items: Vec::with_capacity(len), variant: None, nest })
+    }
     fn serialize_struct_variant(self, _name: &'static str, idx: u32, _variant: &'static str, len: usize) -> Result<Seq, Error> {
-        Ok(Seq { items: Vec::with_capacity(len), variant: Some(idx) })
+        Ok(Seq { items: Vec::with_capacity(len), variant: Some(idx), nest: false })
     }
 }
 
@@ -91,6 +97,12 @@ impl Seq {
     fn finish(self) -> U {
         match self.variant {
             Some(idx) => variant(idx, self.items),
+            None if self.nest => {
+                let mut it = self.items.into_iter().rev();
+                let mut acc = it.next().unwrap();
+                for x in it { acc = U::L(vec![x, acc]); }
+                acc
+            }
             None => U::L(self.items),
         }
     }
